@@ -236,7 +236,7 @@ func (c *Concretiser) bytes0(m M) []byte {
 	case "Stuffed":
 		return c.stuffing()
 	case "Cancel":
-		if c.Rng.Intn(2) == 0 { // realistic small process ids and keys (they contain zero bytes)
+		if c.Rng.Intn(4) != 0 { // realistic small process ids and keys (they contain zero bytes)
 			return pgw.Cancel(uint32(c.Rng.Intn(70000)), uint32(c.Rng.Intn(70000)))
 		}
 		return pgw.Cancel(c.Rng.Uint32(), c.Rng.Uint32())
